@@ -1,28 +1,37 @@
 #!/usr/bin/env python3
-"""refactest.py [dir ...] — false-alarm regression: apply each behaviour-preserving refactoring kept under
+"""refactest.py [-j N] [dir ...] — false-alarm regression: apply each behaviour-preserving refactoring kept under
 /verif/refactors/<id>/patch.diff (or the given directories) to a scratch worktree of /repo's HEAD and run
-every check on it. Any VIOLATION or UNDECIDED is a false alarm of the checker. Scratch worktree removed afterwards."""
-import glob, json, os, re, shutil, subprocess, sys, tempfile
+every check on it. Any VIOLATION or UNDECIDED is a false alarm of the checker. Scratch worktrees removed afterwards."""
+import glob, json, os, re, shutil, subprocess, sys, tempfile, queue
+from concurrent.futures import ThreadPoolExecutor
 cenv = dict(os.environ, PATH="/opt/veriftools/go1.26.8/bin:" + os.environ["PATH"], GOTOOLCHAIN="local", GOFLAGS="-mod=mod", GOPROXY="off", GOWORK="off")
+BIN = os.environ.get("VC_BIN", "/verif/bin/vuegocheck")
 def sh(cmd, cwd=None, env=None):
     p = subprocess.run(["bash", "-c", cmd], cwd=cwd, env=env or os.environ, stdout=subprocess.PIPE, stderr=subprocess.STDOUT, text=True)
     return p.returncode, p.stdout
-dirs = sys.argv[1:] or sorted(glob.glob("/verif/refactors/*/"))
-wt = tempfile.mkdtemp(prefix="refactest-"); os.rmdir(wt)
-rc, out = sh(f"git -C /repo worktree add -q --detach {wt} HEAD"); assert rc == 0, out
-bad = 0
-limits = 0
-try:
-    for d in dirs:
+args = sys.argv[1:]
+J = 6
+if args[:1] == ["-j"]:
+    J = int(args[1]); args = args[2:]
+dirs = args or sorted(glob.glob("/verif/refactors/*/"))
+wts = queue.Queue(); all_wts = []
+for i in range(min(J, len(dirs))):
+    wt = tempfile.mkdtemp(prefix="refactest-"); os.rmdir(wt)
+    rc, out = sh(f"git -C /repo worktree add -q --detach {wt} HEAD"); assert rc == 0, out
+    wts.put(wt); all_wts.append(wt)
+def one(d):
+    wt = wts.get()
+    try:
         d = d.rstrip("/") + "/"
         name = "/".join(d.rstrip("/").split("/")[-2:]) if "/tmp/" in d else d.rstrip("/").split("/")[-1]
         rc, out = sh(f"git apply {d}patch.diff", cwd=wt)
         if rc != 0:
-            print(f"{name:14} patch does not apply (skipped)"); continue
+            return ("skip", f"{name:14} patch does not apply (skipped)")
         rc, out = sh("go build ./...", cwd=wt, env=dict(os.environ, GOFLAGS="-mod=mod", GOPROXY="off"))
         if rc != 0:
-            print(f"{name:14} does not build (skipped)"); sh("git checkout -q -- . && git clean -fdq", cwd=wt); continue
-        rc, out = sh(f"/verif/bin/vuegocheck -property all -no-evidence -repo {wt} -verif /verif", env=cenv)
+            sh("git checkout -q -- . && git clean -fdq", cwd=wt)
+            return ("skip", f"{name:14} does not build (skipped)")
+        rc, out = sh(f"{BIN} -property all -no-evidence -repo {wt} -verif /verif", env=cenv)
         sh("git checkout -q -- . && git clean -fdq", cwd=wt)
         viol = sorted(set(re.findall(r"^\s+(C\d+\.R\d+[a-z]?) ", out, re.M)))
         und = sorted(set(re.findall(r"^UNDECIDED: property=C\d+ rule (C\d+\.R\d+)", out, re.M)))
@@ -34,17 +43,27 @@ try:
             limit = json.load(open(d + "meta.json")).get("checker_limit")
         except Exception:
             pass
+        kind = "ok"
         if status != "silent" and limit and not viol:
-            status = "UNDECIDED (documented limit)"
-            limits += 1
+            status = "UNDECIDED (documented limit)"; kind = "limit"
         elif status != "silent":
-            bad += 1
-        print(f"{name:14} {status:12} violations={','.join(viol) or '-'} undecided={','.join(und) or '-'}")
+            kind = "bad"
+        txt = f"{name:14} {status:12} violations={','.join(viol) or '-'} undecided={','.join(und) or '-'}"
         if status == "FALSE ALARM" and os.environ.get("REFAC_VERBOSE"):
             for l in out.splitlines():
                 if re.match(r"^\s+C\d+\.R|^UNDECIDED", l):
-                    print("      ", l.strip()[:300])
+                    txt += "\n       " + l.strip()[:300]
+        return (kind, txt)
+    finally:
+        wts.put(wt)
+try:
+    with ThreadPoolExecutor(max_workers=J) as ex:
+        rows = list(ex.map(one, dirs))
 finally:
-    sh(f"git -C /repo worktree remove --force {wt}"); shutil.rmtree(wt, ignore_errors=True)
-print(f"false alarms: {bad}/{len(dirs)}" + (f"  (+{limits} undecided on deleted roles, documented in their meta.json and DESIGN.md 6.9)" if limits else ""))
+    for wt in all_wts:
+        sh(f"git -C /repo worktree remove --force {wt}"); shutil.rmtree(wt, ignore_errors=True)
+for k, t in rows:
+    print(t)
+bad = sum(1 for k, _ in rows if k == "bad"); limits = sum(1 for k, _ in rows if k == "limit"); skipped = sum(1 for k, _ in rows if k == "skip")
+print(f"false alarms: {bad}/{len(dirs)}" + (f"  (+{limits} undecided on deleted roles, documented in their meta.json and DESIGN.md 6.9)" if limits else "") + (f"  ({skipped} skipped: patch stale)" if skipped else ""))
 sys.exit(1 if bad else 0)
